@@ -1110,6 +1110,7 @@ func c15Handle(r *Run, snap *slog.VerifRegistry, c c15Case) {
 		obs.Enabled[int(z)] = h.Enabled(ctx, logslog.Level(z))
 	}
 
+	historyPrelude(len(c.Msg)*3 + len(c.Ds)*11 + len(c.Attrs)*5 + int(c.Z&63))
 	// an earlier record through the same handler (half of the cases with derivations): its attribute sorts
 	// before every other key; nothing of it may stay behind in the handler
 	if len(c.Ds) > 0 && (len(c.Msg)+len(c.Ds)+len(c.Attrs))%2 == 0 {
